@@ -20,6 +20,9 @@ type c18transport struct {
 	inner    *vsTransport
 	mutateAt int
 	n        int
+	// noDigest emulates a registry that never sends Docker-Content-Digest (on top of the
+	// single corrupted response)
+	noDigest bool
 }
 
 func c18mutate(resp *http.Response) {
@@ -67,6 +70,9 @@ func c18mutate(resp *http.Response) {
 
 func (t *c18transport) RoundTrip(req *http.Request) (*http.Response, error) {
 	resp, err := t.inner.RoundTrip(req)
+	if err == nil && t.noDigest {
+		resp.Header.Del("Docker-Content-Digest")
+	}
 	if err == nil && t.n == t.mutateAt {
 		c18mutate(resp)
 	}
@@ -88,7 +94,7 @@ func VerifC18_ClientFaults() {
 	mem.PushManifest(ctx, "a/b", "t2", man, "application/x-opaque")
 	mem.PushManifest(ctx, "a/b", "t3", man, "application/x-opaque")
 	opts := &Options{OmitDigestFromTagGetResponse: verifBool("omitDigest"), OmitLinkHeaderFromResponses: verifBool("omitLink")}
-	tr := &c18transport{inner: &vsTransport{h: New(mem, opts)}, mutateAt: verifChoose("mutateAt", 4)}
+	tr := &c18transport{inner: &vsTransport{h: New(mem, opts)}, mutateAt: verifChoose("mutateAt", 4), noDigest: verifBool("registryNeverSendsDigest")}
 	pageSize := []int{1, 2, 0, -1, -5, 1000}[verifChoose("pageSize", 6)]
 	c, err := ociclient.New("h.example", &ociclient.Options{Transport: tr, ListPageSize: pageSize})
 	verifAssert(err == nil, "client")
